@@ -2,3 +2,6 @@ import LogicaModel.Escape
 import LogicaModel.EscapeLemmas
 import LogicaModel.Ops
 import LogicaModel.Props.C10
+import LogicaModel.TypeAlg
+import LogicaModel.TypeAlgLemmas
+import LogicaModel.Props.C16
